@@ -32,6 +32,12 @@ CHECKS = {
  "C10": ("exploration", "reference GC predicate over (before, after) snapshots of real Store.Gc()",
    "6k/300k random stores (limits, expiry marks, tied timestamps) built through the real API; one real Gc() bracketed by the harness clock; survivors must be an unchanged subsequence, limit victims an oldest-prefix (ties by inequality), expired data gone and everything else kept; second pass must be a no-op; index agrees with slice.",
    "Data ages are >=0.5h away from every expiry threshold so the verdict is independent of when Gc sampled time.Now(); 'at most N' read literally.", "§4 C10"),
+ "C12": ("fault_enumeration", "fault injection at every export failure point + post-attempt lock/goroutine oracle (run under -race)",
+   "Complete grid for stores up to 3x3 (thorough 4x4): Prometheus Write and /metrics with each kind of unrepresentable item at every (metric, label set); graphite/statsd/collectd with a writer failing at every k-th write (through the verif write hook) and real tcp/unix/udp peers closing early; /varz /graphite /json with the request cancelled before the first metric and at every response write, with and without a failing ResponseWriter. After each attempt TryLock on every metric, no goroutine parked in EmitLabelSets, and a write-locking update plus another export complete.",
+   "The lock oracle is time-free; the leaked-goroutine verdict polls for 1s before deciding; the progress probe has a 20s watchdog.", "§4 C12"),
+ "C13": ("exploration", "expected-exposition monitor: store spec vs parsed Prometheus text, both scrape paths",
+   "3k/150k random stores (every kind/type, 0-3 keys, 0-5 label sets, extreme and non-finite values, hostile label values incl. invalid UTF-8, same name in several programs) scraped through registry+promhttp handler and through Exporter.Write with prog label and timestamps on/off; parsed with expfmt and compared series by series (name, labels, type, bit-exact value, cumulative buckets, +Inf=count, sum, timestamps in ms).",
+   "expfmt.TextParser trusted; String-typed non-text metrics: value not checked; known finding C13-b (Write path, same name with different key sets).", "§4 C13"),
  "C15": ("exploration", "reference splitter vs real LineReader, exhaustive over short streams/chunkings",
    "Every byte string of length <=5 (quick) / <=7 (thorough) over {LF,CR,'a',0xC3,0xA9} x every chunking x buffer sizes {1,2,3,5,8,64} x 3 reader behaviours (1.0M / 90M runs), plus long random streams (lines longer than the 128KiB buffer, chunk sizes around 131072) through the default buffer.",
    "Reader driven as the streams drive it (ReadAndSend until (0,EOF), then Finish).", "§4 C15"),
